@@ -41,7 +41,8 @@ C["C14"] = ("proof", "List refinement of Array, String, StringStream, StringView
             "SIMD alignment behaviour tested, not proved.")
 C["C15"] = ("proof", "33 unbounded theorems: string comparison is the lexicographic order by code unit (trichotomy, unions, transitivity, prefix first, signedness per width), Value comparison is a total preorder by kind then content with pointers followed on both sides (no-NaN hypothesis where needed), Memory::Sort returns a permutation for ANY comparison and an ordered one for every strict order, both directions. Correspondence: all pairs/triples of short strings, value pool incl. pointers and NaN, sorts of arrays/HArray/Value objects with tombstones and lookups afterwards, <loop sort>.",
             "Key lookups after HashTable::Sort are proved in C13.")
-C["C16"] = ("proof", "PARTIAL (see DESIGN.md C16).", "")
+C["C16"] = ("proof", "PARTIAL. Proved on the heap model of the sequence containers (block ids, release marks): for every operation history of Array / String / StringStream nothing dead is released or accessed, no block has two owners, every live block has an owner, and destroying every object leaves no live block (net allocation zero); per-operation ledger preservation. Value trees, hash tables, tag records, expression lists and the parsers' failure paths have no heap in the models: for them the check is the runtime ledger through the library's own allocator seam (unknown/double release, block handed out twice, blocks live after every owner is gone) plus ASan/LSan, over the C12/C13/C14 histories, valid and rejected JSON texts, well-formed and malformed templates and tag-cache lifetimes (copy, move, clear, reuse).",
+            "Whether a destructor runs is decided by the C++ runtime; only the sequence containers' ownership discipline is a theorem.")
 C["C17"] = ("proof", "PARTIAL. Proved on the model: a render only appends; any sequence of renders through one tag tree with different values and pre-filled streams equals the concatenation of fresh renders, each the documented expansion. Non-modification of value/text/cache and data-race freedom are runtime facts: tested per generated template (cache reused 3x, before/after comparison, ASan) and with 8/16 threads sharing one tag array under ThreadSanitizer.",
             "Thread schedules are sampled, not enumerated.")
 C["C18"] = ("proof", "Proved (induction on the array): GroupBy on values equals the partition specification on documents -- one member per distinct textual value in first-appearance order, each the stable filter of the input with the key erased, wherever the key sits; source unchanged. Correspondence: Value::GroupBy tree and <loop group=> output on generated arrays incl. removed members.",
@@ -86,7 +87,7 @@ def main():
 
 
 # properties whose check is wired, green on /repo and reviewed
-CLAIM = ["C01", "C02", "C03", "C04", "C05", "C06", "C07", "C08", "C14", "C19", "C09", "C10", "C11", "C12", "C13", "C15", "C17", "C18", "C20"]
+CLAIM = ["C01", "C02", "C03", "C04", "C05", "C06", "C07", "C08", "C14", "C16", "C19", "C09", "C10", "C11", "C12", "C13", "C15", "C17", "C18", "C20"]
 NA = {}
 
 if __name__ == "__main__":
